@@ -23,7 +23,7 @@ Proof. intros. reflexivity. Qed.
 (* similarity and shift for a named function:  v(a t + b), a > 0  |->  e^{s b / a} V(s / a) / a *)
 Theorem table_entry_func : forall (v : nat) (a b s : K), pos K neg a = true ->
   gen_func K V v a b s = spec_func K ex Fn v a b s.
-Proof. intros v a b s Ha. unfold gen_func, spec_func. cbv zeta. rewrite (fabs_pos a Ha).
+Proof using ex_0 fabs_pos. intros v a b s Ha. unfold gen_func, spec_func. cbv zeta. rewrite (fabs_pos a Ha).
   assert (Hz : a <> 0).
   { unfold pos in Ha. apply andb_true_iff in Ha. destruct Ha as [_ H]. apply negb_true_iff in H. apply feqb_neq in H. exact H. }
   destruct (feqb b 0) eqn:Eb; cbn [negb].
